@@ -82,6 +82,15 @@ def cases(draw, tier="quick"):
         rp = ["bin", "**", base, ex]
         recipe = draw(st.sampled_from([rp, ["bin", "-", rp, ["bin", "*", ["const", "pyint", 2], g.var_leaf()]], ["bin", "+", g.var_leaf(), rp],
                                        ["bin", "*", rp, g.var_leaf()]]))
+    if draw(st.integers(0, 11)) == 0:
+        # a tower of constant powers (b ** p) ** q: p*q may be a non-negative integer although (b ** p) ** q is |b|, sqrt(b)**2 ...
+        p_, q_ = draw(st.sampled_from([(2, 0.5), (0.5, 2), (6, 0.5), (2, 1.5), (4, 0.5), (-1, -1), (-2, -0.5), (2, 2), (3, 2), (1.5, 2),
+                                       (0.5, 4), (-1, -2), (2, 0.25)]))
+        kind = lambda v: "pyint" if isinstance(v, int) else "pyfloat"
+        base = draw(st.sampled_from([g.var_leaf(), ["bin", "-", g.var_leaf(), ["const", "pyint", 1]], ["bin", "+", g.var_leaf(), g.var_leaf()]]))
+        tw = ["bin", "**", ["bin", "**", base, ["const", kind(p_), p_]], ["const", kind(q_), q_]]
+        recipe = draw(st.sampled_from([tw, ["bin", "+", tw, ["bin", "*", ["const", "pyfloat", 0.5], g.var_leaf()]],
+                                       ["bin", "+", ["bin", "*", ["const", "pyint", 3], tw], ["const", "pyint", 1]], ["bin", "-", g.var_leaf(), tw]]))
     lines = []
     for i_ in range(3):
         if i_ == 2:
